@@ -32,6 +32,9 @@ SetSize(k) == /\ Len(hist) < MaxDepth /\ params' = [params EXCEPT !.size = k] /\
               /\ Log([op |-> "set_size", arg |-> k]) /\ Emitting
 SetTheta(k) == /\ Len(hist) < MaxDepth /\ params' = [params EXCEPT !.theta = k] /\ stamp' = Reset("theta")
                /\ Log([op |-> "set_theta", arg |-> k]) /\ Emitting
+\* the caller modifies, in place, the array it passed as `positions`: the aperture owns a copy, so nothing changes
+CallerMutates == /\ Len(hist) < MaxDepth /\ UNCHANGED <<params, stamp>>
+                 /\ Log([op |-> "caller_mutates", arg |-> 0]) /\ Emitting
 Read(r) == /\ Len(hist) < MaxDepth /\ r \notin DOMAIN stamp
            /\ stamp' = stamp @@ (r :> params) /\ UNCHANGED params
            /\ Log([op |-> "read", arg |-> r]) /\ Emitting
@@ -41,6 +44,7 @@ Init == /\ params \in [pos : PosIds, shift : {0}, size : SizeIds, theta : ThetaI
         /\ hist = <<[op |-> "init", arg |-> params.pos]>>
 Next == \/ \E k \in PosIds : SetPos(k)
         \/ IAddPos
+        \/ CallerMutates
         \/ \E k \in SizeIds : SetSize(k)
         \/ \E k \in ThetaIds : SetTheta(k)
         \/ \E r \in Reads : Read(r)
